@@ -591,6 +591,10 @@ func genStatExpr(t *rapid.T, pool []string, label string, maxFields int) refproj
 func genStatCase(t *rapid.T) statCase {
 	var c statCase
 	nfiles := rapid.IntRange(1, 4).Draw(t, "nfiles")
+	if vcase.OneIn(t, 12, "manyfiles") {
+		// seven and more columns: CSV fields beyond spreadsheet column Z
+		nfiles = rapid.IntRange(7, 9).Draw(t, "nmanyfiles")
+	}
 	// constant mode: every measurement of a benchmark/unit is the same number in every file
 	// (the comparison then cannot run a test: "all samples are equal")
 	constant := vcase.OneIn(t, 8, "constant")
